@@ -24,6 +24,9 @@ ASSUMPTIONS = [
     "SpanUpdater is observed directly for (c) (it is the translation the statement speaks of)",
 ]
 P = "ABCDE 123.,§"
+# what is drawn: the characters of P, and now and then text that is not in Unicode normal form C (a letter followed by
+# a combining mark, conjoining jamo) - the offsets are code points of the texts as given
+P_DRAW = list(P) * 3 + ["\u0301", "A\u0308", "E\u0301", "\u1100\u1161", "\u212b"]
 Q = ["<i>", "</i>", "<em>", "</em>", "\n", "\t", "<p>", "</p>", "<br/>", "zz", "<a>", "</a>", "\r"]
 # self-contained, well-formed snippets: whatever slice of the source an annotation of plain characters covers is
 # balanced markup, so the tag-handling modes have nothing to repair and must behave like "unchecked"
@@ -193,7 +196,7 @@ def evaluate(case):
 
 @st.composite
 def _nosource(draw):
-    plain = "".join(draw(st.lists(st.sampled_from(list(P) + ["<i>", "</i>", "&"]), min_size=1, max_size=25)))
+    plain = "".join(draw(st.lists(st.sampled_from(P_DRAW + ["<i>", "</i>", "&"]), min_size=1, max_size=25)))
     n = len(plain)
     cuts = sorted(draw(st.lists(st.integers(0, n), min_size=2, max_size=8, unique=True)))
     spans = [[cuts[i], cuts[i + 1]] for i in range(0, len(cuts) - 1, 2)]
@@ -208,7 +211,7 @@ def _nosource(draw):
 
 @st.composite
 def _forced(draw):
-    plain = "".join(draw(st.lists(st.sampled_from(P), min_size=1, max_size=25)))
+    plain = "".join(draw(st.lists(st.sampled_from(P_DRAW), min_size=1, max_size=25)))
     n = len(plain)
     ins = draw(st.lists(st.tuples(st.integers(0, n), st.integers(0, len(Q) - 1)).map(list), max_size=10))
     cuts = sorted(draw(st.lists(st.integers(0, n), min_size=2, max_size=6, unique=True)))
@@ -230,7 +233,7 @@ def _forced(draw):
 def _forced_lines(draw):
     """Long (> 100 characters) multi-line plain text made of repeated identical lines; insertions from the foreign
     alphabet (without line breaks) land in some copies only. The alignment is still forced."""
-    lines = draw(st.lists(st.lists(st.sampled_from(P), min_size=4, max_size=14).map("".join), min_size=2, max_size=4))
+    lines = draw(st.lists(st.lists(st.sampled_from(P_DRAW), min_size=4, max_size=14).map("".join), min_size=2, max_size=4))
     seq = draw(st.lists(st.integers(0, len(lines) - 1), min_size=8, max_size=16))
     plain = "\n".join(lines[i] for i in seq)
     n = len(plain)
